@@ -110,9 +110,8 @@ fn ensure_error_code_correct(
     field_name: &'static str,
 ) -> Result<(), ErrorObjectError> {
     match value {
-        JValue::Number(number) if number.is_i64() | number.is_u64() => {
-            ensure_error_code_is_error(number.as_i64().unwrap())
-        }
+        // an integer above i64::MAX is_u64 but has no i64 representation
+        JValue::Number(number) if number.is_i64() => ensure_error_code_is_error(number.as_i64().unwrap()),
         _ => Err(ErrorObjectError::ScalarFieldIsWrongType {
             scalar: scalar.clone(),
             field_name,
